@@ -66,6 +66,10 @@ class CompileMapper(StringifyMapper):
             else:
                 return f"*{sbase}**{exp}"
 
+        if not expr.data:
+            # the zero polynomial (e.g. p - p): no terms to write down
+            return "0"
+
         result = ""
         rev_data = expr.data[::-1]
         for i, (exp, coeff) in enumerate(rev_data):
